@@ -24,13 +24,17 @@ LEVEL_TEXT = ('For small codes the whole operator space is enumerated, so "succe
               'pairwise products decides the predicates on a spanning family.')
 LEVEL_NOTE = ('Trusted: mc/gf2.py; validity of the listed logicals (C01). Configurations that an open C01 finding '
               'marks invalid are skipped and counted.')
-RULE = ('full: every e in {I,X,Y,Z}^n for each (class, size, deformation) with n <= bound; structured: single-qubit '
+RULE = ('full: every e in {I,X,Y,Z}^n for each (class, size, deformation) with n <= bound; singles: single-qubit X/Y/Z '
+        'on every qubit, every generator and every logical of every undeformed (class, size) up to a larger qubit '
+        'bound incl. elongated lattices; structured: single-qubit '
         'X/Y/Z on every qubit, every generator, every logical, every product of two generators (capped per code, cap '
         'reported), generator x logical, generator x single-qubit error; non-trivial = distinct non-identity '
         'operators per configuration; the structured family also on used objects and in per-class sessions')
 ASSUMPTIONS = ['listed logical operators are valid (C01)', 'GF(2) reference mc/gf2.py']
-BOUNDS = {'quick': {'full_n': 6, 'struct_n': 40, 'struct_l_max': 4, 'pair_cap': 100},
-          'thorough': {'full_n': 8, 'struct_n': 150, 'struct_l_max': 5, 'pair_cap': 4000}}
+BOUNDS = {'quick': {'full_n': 6, 'struct_n': 40, 'struct_l_max': 4, 'pair_cap': 100, 'single_n': 100,
+                    'single_l_max': 6},
+          'thorough': {'full_n': 8, 'struct_n': 150, 'struct_l_max': 5, 'pair_cap': 4000, 'single_n': 200,
+                       'single_l_max': 7}}
 
 
 def cases(tier, seed):
@@ -41,6 +45,12 @@ def cases(tier, seed):
     for cfg in F.configs(b['struct_n'], l_max=b['struct_l_max'], min_count=1, used=True):
         out.append(dict(cfg, part='structured', pair_cap=b['pair_cap']))
     struct = [c for c in out if c['part'] == 'structured']
+    # elongated / larger undeformed lattices (boundary layers that only exist from some length on): the
+    # single-qubit operators on every qubit, every generator and every logical
+    have = {(c['cls'], tuple(c['size'])) for c in struct}
+    for cfg in F.configs(b['single_n'], l_max=b['single_l_max'], min_count=0, deformed=False):
+        if (cfg['cls'], tuple(cfg['size'])) not in have:
+            out.append(dict(cfg, part='singles'))
     out += [{'part': 'session', 'cfgs': [dict(c, pair_cap=20) for c in seq]}
             for seq in session.interleave_by_size(struct, 2)]
     out += [{'part': 'session', 'cfgs': [dict(c, pair_cap=20) for c in seq]}
@@ -105,6 +115,7 @@ def eval_case(cfg):
         singles = [1 << i for i in range(n)] + [1 << (n + i) for i in range(n)] + \
                   [(1 << i) | (1 << (n + i)) for i in range(n)]
         ops = [0] + singles + H + LX + LZ
+    if cfg['part'] == 'structured':
         pairs = list(itertools.combinations(range(len(H)), 2))
         cap = cfg['pair_cap']
         if len(pairs) > cap:
